@@ -100,7 +100,11 @@ def judge(ctx, fixed_rows, errors, text, widths, setting, fields, source=None, t
     try:
         rows = list(fixed_rows(source if source is not None else io.StringIO(text, newline=""), "utf-8", fields, setting if setting is not None else None))
         error = None
-    except errors.DataFormatError as e:
+    except errors.DataError as e:
+        if not isinstance(e, errors.DataFormatError):
+            case = {"text": text, "widths": list(widths), "setting": setting}
+            ctx.violation("C13:row-rejected" + suffix, case, "a row of free text of the declared widths was rejected", expected="rows or DataFormatError", observed=e)
+            return
         rows, error = None, e
         try:
             str(e)
@@ -114,6 +118,12 @@ def judge(ctx, fixed_rows, errors, text, widths, setting, fields, source=None, t
         return
     total = sum(widths)
     records = wellformed_records(text, total, setting)
+    if error is None and any(isinstance(row, Exception) for row in rows):
+        # (through the validating Reader: its fields are free text, so no row is ever rejected)
+        case = {"text": text, "widths": list(widths), "setting": setting}
+        ctx.violation("C13:row-rejected" + suffix, case, "a row of free text of the declared widths was rejected", expected="rows or DataFormatError",
+                      observed=[r for r in rows if isinstance(r, Exception)][0])
+        return
     if error is None:
         if not rebuilds(text, rows, widths, setting):
             case = {"text": text, "widths": list(widths), "setting": setting}
@@ -151,7 +161,19 @@ def through_reader(source, encoding, fields, setting):
     if cid is None:
         cid = interface.Cid()
         name = {"\n": "LF", "\r": "CR", "\r\n": "CRLF", "any": "Any", None: "None"}[setting]
-        cid.read("<c13>", [["D", "Format", "Fixed"], ["D", "Line delimiter", name]] + [["F", n, "", "", str(w), "Text", ""] for n, w in fields])
+        if len(fields) >= 2 and len(READER_CIDS) % 2 == 1:
+            # a CID that grows through the API while it is in use: declared with its first field, read with, and then
+            # given the other fields one by one - the widths that count are the ones declared when the data are read
+            cid.read("<c13>", [["D", "Format", "Fixed"], ["D", "Line delimiter", name], ["F", fields[0][0], "", "", str(fields[0][1]), "Text", ""]])
+            for n, w in fields[1:]:
+                try:
+                    list(cutplace.Reader(cid, io.StringIO("a" * sum(x[1] for x in fields), newline=""), on_error="continue").rows())
+                except Exception:
+                    pass
+                cid.add_field_format_row(["F", n, "", "", str(w), "Text", ""][1:])
+            GROWN[0] += 1
+        else:
+            cid.read("<c13>", [["D", "Format", "Fixed"], ["D", "Line delimiter", name]] + [["F", n, "", "", str(w), "Text", ""] for n, w in fields])
         READER_CIDS[key] = cid
     # (in any of the three error modes: no row of free text is ever rejected, so they have to agree - and a malformed
     # container ends the pass in every mode)
@@ -165,6 +187,7 @@ def through_reader(source, encoding, fields, setting):
 
 
 READER_CALLS = [0]
+GROWN = [0]
 
 
 def run(ctx):
@@ -201,7 +224,17 @@ def run(ctx):
                 break
         ctx.bulk(len(shorter), len(shorter) - 1, sample={"widths": list(widths), "setting": setting, "texts": "the same strings up to length %d through cutplace.Reader" % ctx.pick(5, 6)} if index < 3 else None)
         ctx.count("sweep.cases-through-reader", len(shorter))
+        # a character stream whose first character is U+FEFF: in a stream of characters it is a character like any other
+        marked = ["\ufeff" + t for t in strings if len(t) <= ctx.pick(3, 5)]
+        for text in marked:
+            judge(ctx, fixed_rows, errors, text, widths, setting, fields)
+            judge(ctx, through_reader, errors, text, widths, setting, fields, suffix=":reader")
+            if ctx.violation_count - before > 20:
+                break
+        ctx.bulk(2 * len(marked), 2 * len(marked) - 1, sample=None)
+        ctx.count("sweep.cases-beginning-with-u+feff", 2 * len(marked))
     reach.resume()
+    ctx.count("reader.cids-grown-through-the-api-while-in-use", GROWN[0])
     ctx.exhaustive = True
     ctx.note("exhaustive part: %d strings x %d width lists x %d settings" % (len(strings), len(wl), len(SETTINGS)))
     ctx.floor("sweep.cases", len(strings))
